@@ -647,6 +647,7 @@ static void run_case(Rng&, Ctx& c)
   }
 
   long nrun = 0;
+  int nhang = 0;
   for (size_t m = (size_t)batch; m < muts.size(); m += (size_t)nb)
   {
     const Mutant& mu = muts[m];
@@ -700,6 +701,13 @@ static void run_case(Rng&, Ctx& c)
     {
       c.probe("timed-out");
       L.fail("loader-survives", base + "hang", "60 s of CPU time exhausted (after a first run that exhausted 5 s) | " + det);
+      // every hang costs 65 s of CPU: after three of them in one batch the reader is known to hang and the rest of the batch
+      // is abandoned (counted), so that a tree whose reader hangs on most inputs is still decided in bounded time
+      if (++nhang >= 3)
+      {
+        for (size_t m2 = m + (size_t)nb; m2 < muts.size(); m2 += (size_t)nb) c.skip("batch-abandoned-after-3-hangs");
+        break;
+      }
       continue;
     }
     if (o.kind == ChildOutcome::DIED)
